@@ -86,24 +86,37 @@ def collect {α} : List (Option (List α)) → Option (List α)
   | none :: _ => none
   | some l :: t => (collect t).map (l ++ ·)
 
-/-- the call a generated (non-wrapper) method makes -/
-def MethodSpec.toCall (vLitString : Nat) (m : MethodSpec) (args : List Arg) : Option Call := do
-  let ops ← collect (m.slots.map (Slot.operands vLitString args))
-  let rt ← match m.rtype with
-    | none => some none
-    | some p => match args[p]? with
-      | some (.n x) => some (some x)
-      | _ => none
-  let ip ← (if m.hasIp then (match args[0]? with
-      | some (Arg.ip p) => some p
-      | _ => none) else some InsertPoint.end_ : Option InsertPoint)
-  let given ← (if m.idKind == 2 || m.idKind == 3 then (match args[m.idParam]? with
-      | some (Arg.optN o) => some o
-      | _ => none) else some none : Option (Option Nat))
+/-- the `result_type` argument, if the method has one -/
+def MethodSpec.rtArg (m : MethodSpec) (args : List Arg) : Option (Option Nat) :=
+  match m.rtype with
+  | none => some none
+  | some p => match args[p]? with
+    | some (.n x) => some (some x)
+    | _ => none
+
+/-- the `insert_point` argument (always the first), `End` for methods without one -/
+def MethodSpec.ipArg (m : MethodSpec) (args : List Arg) : Option InsertPoint :=
+  if m.hasIp then (match args[0]? with
+    | some (Arg.ip p) => some p
+    | _ => none) else some InsertPoint.end_
+
+/-- the optional explicit result id -/
+def MethodSpec.givenArg (m : MethodSpec) (args : List Arg) : Option (Option Nat) :=
+  if m.idKind == 2 || m.idKind == 3 then (match args[m.idParam]? with
+    | some (Arg.optN o) => some o
+    | _ => none) else some none
+
+def MethodSpec.mkCall (m : MethodSpec) (ops : List Operand) (rt : Option Nat) (ip : InsertPoint) (given : Option Nat) : Call :=
   let rule : IdRule := if m.idKind == 0 then .none else if m.idKind == 1 then .fresh else .given given
-  if m.sink == 0 then some (.moduleInst m.sect m.opcode rt rule ops)
-  else if m.sink == 1 then some (.blockInst ip m.opcode rt rule ops)
-  else if m.sink == 2 then some (.terminator ip m.opcode ops)
-  else some (.typeRequest m.opcode given ops)
+  if m.sink == 0 then .moduleInst m.sect m.opcode rt rule ops
+  else if m.sink == 1 then .blockInst ip m.opcode rt rule ops
+  else if m.sink == 2 then .terminator ip m.opcode ops
+  else .typeRequest m.opcode given ops
+
+/-- the call a generated (non-wrapper) method makes -/
+def MethodSpec.toCall (vLitString : Nat) (m : MethodSpec) (args : List Arg) : Option Call :=
+  match collect (m.slots.map (Slot.operands vLitString args)), m.rtArg args, m.ipArg args, m.givenArg args with
+  | some ops, some rt, some ip, some given => some (m.mkCall ops rt ip given)
+  | _, _, _, _ => none
 
 end Rspirv
